@@ -270,6 +270,9 @@ pub struct JaxNoise {
     /// hp.obo without a header block (the release version is then 0000-00-00; the facts
     /// of such a case carry version (0,0,0))
     pub no_header: bool,
+    /// head of phenotype.hpoa: 0 "#" comment lines + column-name line, 1 column-name line only,
+    /// 2 comment lines only, 3 neither (the file starts with the first row)
+    pub hpoa_head: u8,
 }
 
 const TAG_POOL: [&str; 8] = [
@@ -365,8 +368,12 @@ pub fn render_jax(f: &Facts, noise: &JaxNoise) -> JaxFiles {
         obo = obo.trim_start_matches('\n').to_string();
     }
     let mut hpoa = String::new();
-    hpoa.push_str("#description: \"HPO annotations for rare diseases\"\n#version: 2024-01-01\n");
-    hpoa.push_str("database_id\tdisease_name\tqualifier\thpo_id\treference\tevidence\tonset\tfrequency\tsex\tmodifier\taspect\tbiocuration\n");
+    if noise.hpoa_head % 4 == 0 || noise.hpoa_head % 4 == 2 {
+        hpoa.push_str("#description: \"HPO annotations for rare diseases\"\n#version: 2024-01-01\n");
+    }
+    if noise.hpoa_head % 4 < 2 {
+        hpoa.push_str("database_id\tdisease_name\tqualifier\thpo_id\treference\tevidence\tonset\tfrequency\tsex\tmodifier\taspect\tbiocuration\n");
+    }
     let mut g2p = String::new();
     let mut p2g = String::new();
     if noise.gene_header == 0 {
